@@ -110,6 +110,7 @@ type Exec struct {
 	errorsNew   *ssa.Function
 
 	knownVals      map[int]uint64
+	facts          map[int]bool
 	KeepScripts    bool
 	CrossCheck     func(id, script string, expect solver.Result)
 	MapOrder       func(ex *Exec, ents []*mapEntry) []*mapEntry
@@ -120,6 +121,7 @@ type Exec struct {
 	Params         map[string]int
 	AssertFilter   func(id string) bool
 	initPhase      bool
+	rtypeT         types.Type
 	pfVars         map[string]*sym.Term
 	pfText         map[int][]*sym.Term
 	InitSkipped    []string
@@ -167,6 +169,7 @@ func New(prog *ssa.Program) (*Exec, error) {
 	ex.rtErrString = rt.Type("errorString").Object().Type()
 	installExternals(ex)
 	installDecimal(ex)
+	installReflect(ex)
 	return ex, nil
 }
 
